@@ -25,6 +25,29 @@ Inductive case :=
 
 Definition oq_eqb := opt_eqb Qeq_bool.
 
+(* does the template mention a parameter that is neither bound inside it nor given?  Which of several errors the
+   implementation raises first depends on scope internals (MappedScope.as_dict evaluates every mapped name), so for
+   such inputs any raised error is accepted. *)
+Fixpoint miss_e (bound : list ident) (e : env) (x : expr) : bool :=
+  match x with
+  | ELit _ => false
+  | EVar y => negb (existsb (N.eqb y) bound || match lookup e y with Some _ => true | None => false end)
+  | EAdd a b | ESub a b | EMul a b | EMax a b => miss_e bound e a || miss_e bound e b
+  | EDivK a _ => miss_e bound e a
+  end.
+Fixpoint miss_pt (bound : list ident) (e : env) (p : pt) : bool :=
+  match p with
+  | PAtom _ _ d => miss_e bound e d
+  | PTable _ chans => existsb (existsb (miss_e bound e)) chans
+  | PSeq subs => existsb (miss_pt bound e) subs
+  | PRep c b => miss_e bound e c || miss_pt bound e b
+  | PFor i a b s body => miss_e bound e a || miss_e bound e b || miss_e bound e s || miss_pt (i :: bound) e body
+  | PMap m b => existsb (fun xe => miss_e bound e (snd xe)) m || miss_pt (map fst m ++ bound) e b
+  | PMulti d subs => match d with Some x => miss_e bound e x | None => false end || existsb (miss_pt bound e) subs
+  | PArith l r => miss_pt bound e l || miss_pt bound e r
+  | PWrap b | PRev b => miss_pt bound e b
+  end.
+
 Definition sym_matches (p : pt) (e : env) (sym_impl : option Q) : bool :=
   match sym p (decimalize e) with
   | Inexact => true
@@ -35,6 +58,9 @@ Definition sym_matches (p : pt) (e : env) (sym_impl : option Q) : bool :=
 Definition check_corr (c : case) : bool :=
   match c with
   | CTpl p e sym_impl prog =>
+      match (if miss_pt [] e p then match prog with IErr _ => None | _ => Some tt end else Some tt) with
+      | None => true
+      | Some _ =>
       match cp p e with
       | Inexact => true
       | Err k => match prog with IErr k' => errclass_eqb (class_of k) k' | _ => false end
@@ -45,7 +71,7 @@ Definition check_corr (c : case) : bool :=
                            && Qeq_bool c (sum_pieces 1 (Node 1 kids))
           | _ => false
           end
-      end && sym_matches p e sym_impl
+      end end && sym_matches p e sym_impl
   | CRange a b s impl => list_eqb Z.eqb (zrange a b s) impl
   | CCrash => false
   end.
@@ -63,7 +89,7 @@ Definition check_spec (c : case) : bool :=
   match c with
   | CTpl p e sym_impl prog =>
       if excluded c then true else
-      let sym_exact := match sym p (decimalize e) with Inexact => false | _ => true end in
+      let sym_exact := match sym p (decimalize e) with Ok _ => true | _ => false end in
       match den p (qenv_of e) with
       | None =>
           (* no meaningful duration: nothing is demanded except that the reported numbers do not contradict each other *)
